@@ -10,9 +10,10 @@ THEOREMS = [
     'Sourcer.C05_rule_outcome',
     'Sourcer.C05_where_apply_class',
     'Sourcer.C05_shadowing_breaks_it',
+    'Tie.binders_agree',
 ]
-TIE_MODULES = []
-TRANSLATORS = ()
+TIE_MODULES = ['Tie.Binders']
+TRANSLATORS = ('binders',)
 ASSUMPTIONS = [
     'inline Python is an uninterpreted pure function of the values of the local names it mentions (theorems hold for every interpretation); the driver '
     'interprets the fixed repertoire of harness/envgen.py (identity, tuples, lists, ==, !=, <, int, len, +1, constants)',
